@@ -147,26 +147,6 @@ func c14Perms(n int) [][]int {
 	return out
 }
 
-// c14IDClash: two sessions whose "<peer>[-<vrf>]" labels coincide (an interface name that contains
-// "-<vrf of another peer>"). Only used to name the cause in the signature.
-func c14IDClash(prog *vfFRRProgram) bool {
-	seen := map[string]bool{}
-	for _, s := range prog.Sessions {
-		id := s.Addr
-		if s.Iface != "" {
-			id = s.Iface
-		}
-		if s.VRF != "" {
-			id += "-" + s.VRF
-		}
-		if seen[id] {
-			return true
-		}
-		seen[id] = true
-	}
-	return false
-}
-
 type c14Checker struct {
 	c      *vfCase
 	prog   *vfFRRProgram
@@ -406,7 +386,7 @@ func c14Case(c *vfCase) {
 		return
 	}
 	k := &c14Checker{c: c, prog: &prog, text: text}
-	if c14IDClash(&prog) {
+	if vfFRRPeerLabelCollision(&prog) {
 		k.clash = true
 		c.Count("programs-with-peer-label-collision")
 	}
